@@ -120,13 +120,24 @@ func zzAdd(a, b int64) int64 { return a + b }
 // zzH_C10_reduce: the reducing merge of streams that are each sorted with
 // unique keys yields one row per distinct key, ascending, carrying the sum of
 // that key's values.
-func zzH_C10_reduce() { zzReduce(2, 2, 5, 2) }
-func zzH_C10_reduce_deep() { zzReduce(3, 2, 7, 3) }
+func zzH_C10_reduce() { zzReduce(2, 2, 5, 2, false) }
+func zzH_C10_reduce_deep() { zzReduce(3, 2, 7, 3, false) }
 
-func zzReduce(s, maxRows, calls, maxDst int) {
+// zzH_C10_reduce_err: an input's read error during the reducing merge is
+// reported, sticky, and never swallowed as end of stream.
+func zzH_C10_reduce_err() { zzReduce(2, 2, 5, 2, true) }
+
+func zzReduce(s, maxRows, calls, maxDst int, withErr bool) {
 	defer zzSetChunk(2)()
 	ns := zz.AnyIntIn("streams", 0, s)
 	ms, rs := zzSortedInputs(ns, maxRows, true)
+	if withErr {
+		if ns == 0 {
+			return
+		}
+		w := zz.AnyIntIn("errStream", 0, ns-1)
+		ms[w].FailAt = zz.AnyIntIn("errAt", 0, len(ms[w].Keys))
+	}
 	fn, _ := slicefunc.Of(zzAdd)
 	r := Reduce(zzTyp, "zz", rs, fn)
 	d := sliceio.ZZDriveReader(r, calls, 1, maxDst, "dst")
@@ -143,7 +154,22 @@ func zzReduce(s, maxRows, calls, maxDst int) {
 			present = zz.Or(present, eq)
 		}
 		zz.Assert(present, "every output key is an input key")
-		zz.Assert(d.Vals[i] == sum, "the value is the fold of all values fed for the key")
+		if !withErr {
+			zz.Assert(d.Vals[i] == sum, "the value is the fold of all values fed for the key")
+		}
+	}
+	if withErr {
+		if d.Err == sliceio.EOF {
+			for _, m := range ms {
+				zz.Assert(!m.Failed(), "an input's read error is never swallowed as a clean end of stream")
+			}
+		} else if d.Err != nil {
+			zz.Reach("input error surfaced")
+			zz.Assert(d.Err == sliceio.ZZErrUpstream, "an input's read error is reported as is")
+			n2, err2 := r.Read(context.Background(), frame.Make(zzTyp, 1, 1))
+			zz.Assert(n2 == 0 && err2 == sliceio.ZZErrUpstream, "the error is sticky")
+		}
+		return
 	}
 	if d.Err == sliceio.EOF {
 		zz.Reach("reader reached EOF")
@@ -164,9 +190,10 @@ func zzReduce(s, maxRows, calls, maxDst int) {
 
 var zzRuns [][2][]int64
 var zzCleaned int
+var zzBytesPerRow int
 
 func ZZStubNewSpiller(name string) (sliceio.Spiller, error) {
-	zzRuns, zzCleaned = nil, 0
+	zzRuns, zzCleaned, zzBytesPerRow = nil, 0, 0
 	return sliceio.Spiller("zz-" + name), nil
 }
 
@@ -178,7 +205,10 @@ func ZZStubSpill(dir sliceio.Spiller, f frame.Frame) (int, error) {
 		v = append(v, f.Index(1, i).Int())
 	}
 	zzRuns = append(zzRuns, [2][]int64{k, v})
-	return n, nil // one byte per row
+	if zzBytesPerRow == 0 {
+		zzBytesPerRow = zz.AnyIntIn("bytesPerRow", 1, 2) // chosen once per run
+	}
+	return n * zzBytesPerRow, nil
 }
 
 func ZZStubClosingReaders(dir sliceio.Spiller) ([]sliceio.Reader, error) {
